@@ -8,6 +8,14 @@ CLAIMED = {
             "every byte string up to the stated buffer bound is decided by the SAT back end against Kani's panic/overflow/bounds checks; says nothing beyond the bound",
             "Kani/CBMC/CaDiCaL trusted; alloc::fmt::format stubbed; hashers inside parsers replaced by a harness mixer; verify() past channel construction outside the claim",
             "DESIGN.md §2 C06"),
+    "C12": ("kani", "bounded model checking (Kani/CBMC) of encode->decode round trips over symbolic constructor arguments",
+            "for every value the public constructors accept (arguments symbolic under the documented preconditions) the solver shows decode(encode(x)) == x and that the reader is exhausted; collection sizes are enumerated and small",
+            "Kani/CBMC trusted; field-element encodings (Montgomery maps) are decided under C07 by Engine M; collection lengths beyond the enumerated ones outside the claim",
+            "DESIGN.md §2 C12"),
+    "C13": ("kani", "bounded model checking (Kani/CBMC): differential harness ReadAdapter vs SliceReader, operation sequences and chunkings enumerated, stream contents symbolic",
+            "for each enumerated (operation sequence, stream length, chunk size) the solver shows for every stream content that the streaming reader returns exactly what the slice reader returns and is never pessimistic in check_eor",
+            "Kani/CBMC trusted; sequences longer than 4 operations, streams other than the enumerated lengths (0..9 and 257..260 bytes) and io errors other than short reads are outside the claim",
+            "DESIGN.md §2 C13"),
 }
 NOT_APPLICABLE = {
     "C01": "completeness needs whole prove+verify runs (LDE, hashing every row, FRI) per trace: not encodable for a solver within reach (DESIGN §1 measured limits); boundary-parameter ingredients are decided under C06/C12",
